@@ -178,7 +178,8 @@ class Stall:
                              for t in self.triggers]}
 
 
-def draw_policy(rng, *, nthreads, horizon, marks=('do-exit', 'do-enter')):
+def draw_policy(rng, *, nthreads, horizon, marks=('do-exit', 'do-enter'),
+                max_off=12):
     '''Swarm-style draw of one scheduling policy for a run.'''
     kind = rng.random()
     if kind < 0.30:
@@ -198,7 +199,7 @@ def draw_policy(rng, *, nthreads, horizon, marks=('do-exit', 'do-enter')):
                    'n': rng.randrange(0, max(2, horizon // 2))}
         else:
             trg = {'at': 'mark', 'kind': rng.choice(marks),
-                   'k': rng.randrange(1, 8), 'off': rng.randrange(0, 12)}
+                   'k': rng.randrange(1, 8), 'off': rng.randrange(0, max_off)}
         trg['dur'] = dur
         triggers.append(trg)
     return Stall(rng, base, triggers)
